@@ -3,6 +3,7 @@ package main
 import (
 	"fmt"
 	"strings"
+	"sync"
 
 	"github.com/imroc/req/v3/verifharness/hk"
 )
@@ -80,6 +81,10 @@ func (g *gen) file(size int, kind string, nameClass int) fileIn {
 	} else if strings.Contains(f.Name, "/") {
 		f.Name = strings.ReplaceAll(f.Name, "/", "_") // a standard server keeps only the base name
 	}
+	if kind == "seek" {
+		f.Prefix = hk.Pick(rng, []int{1, 3, 10, 511, 512, 600})
+		f.Seeker = hk.Pick(rng, []string{"bytes", "strings", "section"})
+	}
 	if kind == "reader" || kind == "upload" {
 		switch rng.Intn(5) {
 		case 0:
@@ -127,7 +132,7 @@ func (g *gen) file(size int, kind string, nameClass int) fileIn {
 
 func (g *gen) multipartCases() {
 	r := g.r
-	kinds := []string{"path", "bytes", "reader", "upload"}
+	kinds := []string{"path", "bytes", "reader", "upload", "path", "bytes", "reader", "upload", "seek"}
 	methods := []string{"POST", "POST", "PUT", "PATCH"}
 	n := r.Scale(330, 2400)
 	for i := 0; i < n; i++ {
@@ -326,7 +331,7 @@ func (g *gen) streamCases() {
 
 func (g *gen) protoCases() {
 	r, rng := g.r, g.rng
-	kinds := []string{"path", "bytes", "reader", "upload"}
+	kinds := []string{"path", "bytes", "reader", "upload", "seek"}
 	methods := []string{"POST", "PUT"}
 	n := r.Scale(120, 1500)
 	for i := 0; i < n; i++ {
@@ -403,4 +408,65 @@ func (g *gen) mpOrdered(n int) []string {
 		}
 	}
 	return o
+}
+
+// ---- something else is uploaded between a request's set-up and its write ----
+// (a round-trip wrapper making requests of its own; several goroutines uploading at the same time)
+
+func (g *gen) nestedCases() {
+	r, rng := g.r, g.rng
+	kinds := []string{"path", "bytes", "reader", "upload", "seek"}
+	methods := []string{"POST", "PUT"}
+	n := r.Scale(50, 600)
+	for i := 0; i < n; i++ {
+		var in reqIn
+		switch i % 5 {
+		case 0, 1, 2: // buffered multipart outside, buffered multipart inside
+			in = g.genMultipart(5000+i, kinds, methods)
+			in.Chunked, in.Callback = false, ""
+		case 3:
+			in = g.genMultipart(5000+i, kinds, methods)
+			in.Chunked = true
+		default:
+			in = reqIn{Kind: "form", Method: "POST", RForm: g.form(rng.Range(1, 3)), CForm: g.form(1)}
+		}
+		in.Nested = rng.Range(1, 3)
+		r.Count("nested:" + in.Kind)
+		g.oneBody(in)
+	}
+}
+
+func (g *gen) concurrentCases() {
+	r, rng := g.r, g.rng
+	rounds := r.Scale(6, 60)
+	for k := 0; k < rounds; k++ {
+		par := rng.Range(4, 8)
+		ins := make([]reqIn, par)
+		for j := range ins {
+			in := reqIn{Kind: "multipart", Method: "POST", RForm: []kvs{{K: "who", Vs: []string{fmt.Sprintf("round%d-worker%d", k, j)}}}}
+			c, desc := g.content(hk.Pick(rng, []int{100, 600, 3000, 20000}))
+			for i := range c {
+				c[i] ^= byte(j + 1)
+			}
+			in.Files = []fileIn{{Param: "file", Name: fmt.Sprintf("w%d.bin", j), Kind: "bytes", Content: c, Desc: fmt.Sprintf("%s/%d^%d", desc, len(c), j+1)}}
+			ins[j] = in
+		}
+		outs := make([]sentReq, par)
+		start := make(chan struct{})
+		var wg sync.WaitGroup
+		for j := range ins {
+			wg.Add(1)
+			go func(j int) {
+				defer wg.Done()
+				<-start
+				outs[j] = g.send(ins[j])
+			}(j)
+		}
+		close(start)
+		wg.Wait()
+		for j := range ins {
+			r.Count("concurrent:multipart")
+			g.judge(ins[j], outs[j], fmt.Sprintf("|concurrent%d.%d", k, j))
+		}
+	}
 }
